@@ -388,6 +388,12 @@ def history_check(case):
         return o
 
     def hyper():
+        if case['order'] == 'rebound':
+            # the declared bounds are re-assigned on the live space (another box for the next task): the agents keep their unit bounds
+            h_ = HyperSpace(n_agents=4, n_variables=n, n_dimensions=d, n_iterations=5, lower_bound=[v - 1.0 for v in lb], upper_bound=[v + 1.0 for v in ub])
+            h_.lb = np.array(lb)
+            h_.ub = np.array(ub)
+            return h_
         return HyperSpace(n_agents=4, n_variables=n, n_dimensions=d, n_iterations=5, lower_bound=lb, upper_bound=ub)
 
     if case['order'] == 'hyper-first':
@@ -439,7 +445,7 @@ def history_cases():
     reps = 1 if hlib.QUICK else 10
     i = 0
     for _ in range(reps):
-        for order in ('search-first', 'tree-first', 'hyper-first'):
+        for order in ('search-first', 'tree-first', 'hyper-first', 'rebound'):
             for (mod, cls) in HIST_OPTS:
                 n = 1 + i % 4
                 lo, hi = HIST_BOXES[i % len(HIST_BOXES)]
